@@ -456,9 +456,9 @@ func c03Histories(c *C) {
 			}
 		default:
 			// a template creation; the first one of a set is always a compilable source that uses nothing bannable
-			how := r.Intn(7)
-			if !m.frozen && how == 6 {
-				how = 0
+			how := r.Intn(12)
+			if !m.frozen && how >= 6 {
+				how = how % 6
 			}
 			var err error
 			var what string
@@ -481,10 +481,39 @@ func c03Histories(c *C) {
 			case 5:
 				_, err = sets[i].RenderTemplateFile("/page.tpl", c03Ctx())
 				what = "RenderTemplateFile"
-			default:
+			case 6:
 				_, err = sets[i].FromFile("/broken.tpl")
 				what = "FromFile(broken)"
 				err = nil
+			// failing look-ups and executions in an already frozen set: none of them may thaw it
+			case 7:
+				_, err = sets[i].FromFile("/missing.tpl")
+				what = "FromFile(missing)"
+				err = nil
+			case 8:
+				_, err = sets[i].FromCache("/missing.tpl")
+				what = "FromCache(missing)"
+				err = nil
+			case 9:
+				func() {
+					defer func() { recover() }() // documented: RenderTemplate* panic (Must) when the template cannot be created
+					sets[i].RenderTemplateFile("/missing.tpl", c03Ctx())
+				}()
+				what = "RenderTemplateFile(missing)"
+				err = nil
+			case 10:
+				if lt, lerr := sets[i].FromString("{% include incname " + r.Pick([]string{"", "if_exists "}) + "%}"); lerr == nil {
+					lt.Execute(pongo2.Context{"incname": "/missing.tpl"})
+				}
+				what = "execute lazy include of a missing file"
+			default:
+				func() {
+					defer func() { recover() }()
+					sets[i].RenderTemplateString("{{ 1|nosuchfilter }}", c03Ctx())
+				}()
+				sets[i].FromString("{% extends \"/missing.tpl\" %}")
+				sets[i].CleanCache()
+				what = "failing RenderTemplateString, extends of a missing file, CleanCache"
 			}
 			trace = append(trace, fmt.Sprintf("set%d.%s -> %v", i, what, err))
 			if err != nil {
